@@ -21,6 +21,7 @@ open ChemModel
 noncomputable instance instHasExpReal : HasExp ℝ := ⟨Real.exp⟩
 noncomputable instance instHasLogReal : HasLog ℝ := ⟨Real.log⟩
 noncomputable instance instHasRPowReal : HasRPow ℝ := ⟨Real.rpow⟩
+noncomputable instance instHasSqrtReal : HasSqrt ℝ := ⟨Real.sqrt⟩
 
 /-! ## Specification vocabulary -/
 
@@ -1196,6 +1197,129 @@ theorem numSysLinCfgF_defined {s : EqSystem} (hs : Homogeneous s) (prec : List B
       simp [zeroDiv_false_of_ne_zero y row (hy rfl)]
     simp only [Bool.false_eq_true, ↓reduceIte, prodPow, hz, hfp]
     exact ⟨_, rfl⟩
+
+/-! ## `new_eq_params = False` -/
+
+theorem ownParams_ok {s : EqSystem} {Ks c0 p : List ℝ} (h : ownParams s Ks c0 = .ok p) :
+    c0.length = s.ns ∧ p = c0 ++ Ks := by
+  unfold ownParams at h
+  split at h
+  · exact absurd h (by simp)
+  · split at h
+    · exact absurd h (by simp)
+    · simp only [Except.ok.injEq] at h
+      exact ⟨by omega, h.symm⟩
+
+theorem own_split (s : EqSystem) (c0 Ks : List ℝ) (h : c0.length = s.ns) :
+    initConcsOf s (c0 ++ Ks) = c0 ∧ eqParamsOf s (c0 ++ Ks) = Ks := by
+  unfold initConcsOf eqParamsOf
+  constructor <;> (rw [← h]; simp)
+
+theorem numSysLinOwnF_ok {s : EqSystem} {prec : List Bool} {small : ℝ} {Ks y c0 r : List ℝ}
+    (h : numSysLinOwnF s prec small Ks y c0 = .ok r) :
+    c0.length = s.ns ∧ numSysLinF s prec small y (c0 ++ Ks) = .ok r := by
+  unfold numSysLinOwnF at h
+  split at h
+  · exact absurd h (by simp)
+  · rename_i p hp
+    obtain ⟨hl, rfl⟩ := ownParams_ok hp
+    exact ⟨hl, h⟩
+
+theorem numSysLogOwnF_ok {s : EqSystem} {prec : List Bool} {small : ℝ} {Ks y c0 r : List ℝ}
+    (h : numSysLogOwnF s prec small Ks y c0 = .ok r) :
+    c0.length = s.ns ∧ numSysLogF s prec small y (c0 ++ Ks) = .ok r := by
+  unfold numSysLogOwnF at h
+  split at h
+  · exact absurd h (by simp)
+  · rename_i p hp
+    obtain ⟨hl, rfl⟩ := ownParams_ok hp
+    exact ⟨hl, h⟩
+
+theorem numSysLinOwnF_defined {s : EqSystem} (hs : Homogeneous s) (prec : List Bool) (small : ℝ) {Ks y c0 : List ℝ}
+    (hy : y.length = s.ns) (hc : c0.length = s.ns) (hK : Ks.length = s.nr) (hnr : 0 < s.nr) (hy0 : ∀ x ∈ y, x ≠ 0) :
+    ∃ r, numSysLinOwnF s prec small Ks y c0 = .ok r := by
+  have hshape : shapeOk s y (c0 ++ Ks) = true := by simp [shapeOk, hy, hc, hK]
+  obtain ⟨r, hr⟩ := numSysLinF_defined hs prec small hshape hnr hy0
+  refine ⟨r, ?_⟩
+  unfold numSysLinOwnF ownParams
+  simp [hc, hr]
+
+/-! ## The change of variables of each formulation -/
+
+theorem absV_real (x : ℝ) : absV x = |x| := by
+  unfold absV
+  rw [zero_real]
+  split
+  · rename_i h; rw [abs_of_neg h]
+  · rename_i h; rw [abs_of_nonneg (not_lt.mp h)]
+
+theorem squarePost_squarePre (c : List ℝ) (hc : ∀ x ∈ c, 0 ≤ x) : squarePost (squarePre c) = c := by
+  unfold squarePost squarePre
+  rw [List.map_map]
+  conv_rhs => rw [← List.map_id c]
+  apply List.map_congr_left
+  intro x hx
+  simp only [Function.comp, id]
+  show Real.sqrt (absV x) * Real.sqrt (absV x) = x
+  rw [absV_real, abs_of_nonneg (hc x hx), Real.mul_self_sqrt (hc x hx)]
+
+theorem logPost_logPre (small : ℝ) (c : List ℝ) (hc : ∀ x ∈ c, 0 < x + small) :
+    logPost (logPre small c) = c.map (· + small) := by
+  unfold logPost logPre
+  rw [List.map_map]
+  apply List.map_congr_left
+  intro x hx
+  simp only [Function.comp]
+  show Real.exp (Real.log (x + small)) = x + small
+  exact Real.exp_log (hc x hx)
+
+theorem linRelPost_linRelPre (m c : List ℝ) (hm : ∀ x ∈ m, x ≠ 0) (hl : c.length ≤ m.length) :
+    linRelPost m (linRelPre m c) = c := by
+  unfold linRelPost linRelPre
+  induction c generalizing m with
+  | nil => simp
+  | cons x xs ih =>
+    cases m with
+    | nil => simp at hl
+    | cons a as =>
+      simp only [List.zipWith_cons_cons]
+      rw [ih as (fun z hz => hm z (List.mem_cons_of_mem _ hz)) (by simpa using hl),
+        div_mul_cancel₀ x (hm a List.mem_cons_self)]
+
+/-- `NumSysLinRel.f` scales with `m * yi`, `post_processor` with `x * m`: the same state -/
+theorem linRel_scaled_eq_post (m y : List ℝ) : List.zipWith (· * ·) m y = linRelPost m y := by
+  unfold linRelPost
+  induction m generalizing y with
+  | nil => simp
+  | cons a as ih =>
+    cases y with
+    | nil => simp
+    | cons b bs => simp [ih, mul_comm]
+
+/-! ## 2-D quotients -/
+
+theorem mapM_ok_eq_map {β γ : Type} (f : β → Except String γ) (g : β → γ) (l : List β) (m : List γ)
+    (hfg : ∀ a b, f a = .ok b → b = g a) (h : l.mapM f = .ok m) : m = l.map g := by
+  induction l generalizing m with
+  | nil => simp [List.mapM_nil, pure, Except.pure] at h; simp [← h]
+  | cons a as ih =>
+    rw [List.mapM_cons] at h
+    cases hfa : f a with
+    | error e => simp [hfa, bind, Except.bind] at h
+    | ok b =>
+      cases hrest : as.mapM f with
+      | error e => simp [hfa, hrest, bind, Except.bind] at h
+      | ok ms =>
+        simp [hfa, hrest, bind, Except.bind, pure, Except.pure] at h
+        rw [← h, List.map_cons, hfg a b hfa, ih ms hrest]
+
+theorem equilibriumQuotient_ok {c : List ℝ} {st : List ℤ} {q : ℝ} (h : equilibriumQuotient c st = .ok q) :
+    q = quotient c st := by
+  unfold equilibriumQuotient at h
+  split at h
+  · exact absurd h (by simp)
+  · simp only [Except.ok.injEq] at h
+    rw [← h, prodPowRow_real]
 
 /-! ## Row operations -/
 
